@@ -311,7 +311,11 @@ func selfTest(repo, verif string, only string) int {
 		prop string
 	}
 	var jobs []job
+	kind := os.Getenv("STHLINT_SELFTEST_KIND")
 	for _, v := range vs {
+		if kind != "" && v.Kind != kind {
+			continue
+		}
 		for _, p := range v.Props {
 			if only != "" && p != only && v.ID != only {
 				continue
